@@ -54,8 +54,32 @@ func RunGraph(run *report.Run, sys *explore.System, bounds []explore.Bounds, min
 		if !res.CapHit {
 			completed = res
 		}
+		unconfirmed := 0
 		for _, v := range res.Violations {
-			addConfirmed(run, sys, v)
+			if !addConfirmed(run, sys, v) {
+				unconfirmed++
+			}
+		}
+		if unconfirmed > 0 {
+			// The tree under test keeps state outside the store (fork + discard left traces): fork-based exploration is not
+			// sound for it. Repeat with every transition executed by sequential replay on a fresh World.
+			fmt.Printf("[%s] %d fork-mode violations did not reproduce sequentially: the implementation keeps state outside the store; repeating the exploration without forks\n", sys.ID, unconfirmed)
+			nb := b
+			nb.NoFork = true
+			res2 := explore.Run(sys, nb)
+			fmt.Printf("[%s] no-fork bounds depth=%d V=%d: states=%d transitions=%d cap_hit=%v wall=%.1fs violations=%d\n", sys.ID, nb.Depth, nb.V, res2.States, res2.Transitions, res2.CapHit, res2.WallS, len(res2.Violations))
+			for _, v := range res2.Violations {
+				if !addConfirmed(run, sys, v) {
+					fmt.Fprintf(os.Stderr, "HARNESS ERROR: violation %q found by sequential exploration does not reproduce\n", v.Sig)
+					world.CleanScratch()
+					os.Exit(2)
+				}
+			}
+			run.Coverage["fork_mode_unsound_for_this_tree"] = true
+			last, res = res2, res2
+			if !res2.CapHit {
+				completed = res2
+			}
 		}
 		if res.CapHit || len(res.Violations) > 0 {
 			break
@@ -107,14 +131,15 @@ func RunGraph(run *report.Run, sys *explore.System, bounds []explore.Bounds, min
 	}
 }
 
-func addConfirmed(run *report.Run, sys *explore.System, v explore.Violation) {
+// addConfirmed believes a violation only after 5 sequential replays (fresh World, no forks, no explorer) reproduce it.
+func addConfirmed(run *report.Run, sys *explore.System, v explore.Violation) bool {
 	ok, why := explore.Confirm(sys, v, 5)
 	if !ok {
-		fmt.Fprintf(os.Stderr, "HARNESS ERROR: violation %q at %v not reproducible by sequential replay: %s\n", v.Sig, v.Path, why)
-		world.CleanScratch()
-		os.Exit(2)
+		fmt.Printf("[%s] not believed: %q at %v does not reproduce by sequential replay (%s)\n", sys.ID, v.Sig, v.Path, why)
+		return false
 	}
 	run.Add(report.Viol{Kind: v.Kind, Sig: v.Sig, Msg: v.Msg, Replay: map[string]any{"system": sys.ID, "ops": v.Path}})
+	return true
 }
 
 func max(a, b int) int {
